@@ -168,7 +168,14 @@ func (g *G) depGraph(p *Plan, depStart, depStop uint64) {
 	p.Content.LogMax = 4
 	// referenced task not started at all (no runner) in some runs
 	if g.chance(25) {
-		p.Idle = append(p.Idle, sp.Name+"/"+fmt.Sprintf("ref%d", g.R.IntN(nref)))
+		k := g.R.IntN(nref)
+		if g.chance(40) {
+			// ... or switched off in the configuration: it records nothing, so
+			// the dependent must do nothing either
+			p.Decls[len(p.Decls)-1-nref+k].Enabled = false
+		} else {
+			p.Idle = append(p.Idle, sp.Name+"/"+fmt.Sprintf("ref%d", k))
+		}
 	}
 }
 
